@@ -111,16 +111,18 @@ def run(ctx):
         evs.assumptions = {pre: preimage}
         sm = evs.run(fsv)
         mode = "preimage" if preimage else "plain"
-        oks = [e for e in sm.returns() if e.value == "OK"]
+        leaves = rules.leaf_returns(sm)
+        oks = [e for e in leaves if e.value == "OK"]
         R.check("C02.3", "DOM", fsv, "%s: one 'OK' exit" % mode, len(oks) == 1, "sig_verify has %d exits returning 'OK'" % len(oks))
-        others = [e for e in sm.returns() if e.value != "OK"]
+        others = [e for e in leaves if e.value != "OK"]
         R.check("C02.3", "DOM", fsv, "%s: failures are reported as something other than 'OK'" % mode,
                 all(not (isinstance(e.value, str)) or e.value != "OK" for e in others) and bool(others),
                 "no failure report path in sig_verify")
         for e in oks:
-            facts = rules.all_facts(e)
+            facts = list(e.facts)
             R.check("C02.3", "DOM", fsv, "%s: 'OK' only on the no-exception continuation" % mode,
-                    not any(tm.contains(g, lambda t: isinstance(t, T) and t.op == "except") for g in e.guard),
+                    not any(tm.contains(g, lambda t: isinstance(t, T) and t.op == "except") for g in e.guard) and
+                    not any(isinstance(g, T) and g.op == "except" for g in facts),
                     "'OK' is returned from an exception handler")
             m_hashed = msg if preimage else tm.cat([msg, le(tm.idx(sig_, -1), 4)])
             digest = tm.b2i(H2(m_hashed), "big")
